@@ -73,14 +73,24 @@ def section(ctx):
     init = ctx.find_func(tree, 'Repository', '__init__')
     base = None
     count_ok = False
+    hi_txt = None
     for n in ast.walk(init) if init is not None else []:
         if isinstance(n, ast.For) and un(n.target) == 'slot' and isinstance(n.iter, ast.Call) and un(n.iter.func) == 'range' and len(n.iter.args) == 2:
             lo, hi = n.iter.args
             if isinstance(lo, ast.Constant) and isinstance(lo.value, int):
                 base = lo.value
+                hi_txt = un(hi)
                 count_ok = un(hi) in (f'concurrent + {base}', f'{base} + concurrent') and un(n.body[0]) == 'self._slots.put_nowait(slot)'
     emit(f'def slotBase : Nat := {base}' if base is not None else 'opaque slotBase : Nat')
     emit(f'def slotCountIsConcurrent : Bool := {"true" if count_ok else "false"}')
+    # number of slots put into the queue, as a function of `concurrent` (hi - lo of the range)
+    cnt = None
+    if base is not None and hi_txt is not None:
+        try:
+            cnt = '(' + ctx.translate(hi_txt, {'concurrent': ('concurrent', 'nat')}, 'nat') + f') - {base}'
+        except Exception as e:  # noqa: BLE001
+            notes['sched.slot_count'] = f'not translatable: {hi_txt!r}: {e}'
+    emit(f'def slotCount (concurrent : Nat) : Nat := {cnt}' if cnt is not None else 'opaque slotCount : Nat → Nat')
     a1 = ctx.find_func(tree, 'Repository', '_acquire_slot')
     a2 = ctx.find_func(tree, 'Repository', '_acquire_slot_threadsafe')
     ctx.fp('repository._acquire_slot', a1)
@@ -193,6 +203,35 @@ def section(ctx):
         all_pop = [n for n in ast.walk(dc) if isinstance(n, ast.Assign) and 'files_metadata.pop(file_path)' in un(n.value)]
         rm_locked = rm_locked and len(all_rm) == 1
         pop_locked = pop_locked and len(all_pop) == 1
+    # the variable tested by `if <var>:` before the pop is assigned inside the very `with glock:` block that removes the digest
+    inside = False
+    if dc is not None:
+        for n in ast.walk(dc):
+            if isinstance(n, ast.For) and un(n.iter) == 'referenced_paths':
+                body = n.body
+                for i, st in enumerate(body):
+                    if isinstance(st, ast.If) and any('files_metadata.pop(file_path)' in un(x) for x in ast.walk(st) if isinstance(x, ast.Assign)):
+                        var = un(st.test)
+                        prev = [b for b in body[:i] if isinstance(b, ast.With) and un(b.items[0].context_expr) == 'glock']
+                        if prev and isinstance(st.test, ast.Name):
+                            stmts = [un(x) for x in prev[-1].body]
+                            inside = ('digests.remove(digest)' in stmts and any(x.startswith(var + ' = ') for x in stmts)
+                                      and stmts.index('digests.remove(digest)') < [k for k, x in enumerate(stmts) if x.startswith(var + ' = ')][0]
+                                      and not any(isinstance(b, ast.Assign) and un(b.targets[0]) == var for b in body[:i]))
+    emit(f'def decisionInsideRemoveBlock : Bool := {"true" if inside else "false"}')
+    # after a failed download the operation must not return while loader threads still need the event loop:
+    # try: await gather(futures) / except: loader.shutdown(cancel_futures=True); await gather(..., return_exceptions=True); raise
+    joins_fail = False
+    for n in ast.walk(rest) if rest is not None else []:
+        if isinstance(n, ast.Try) and any('asyncio.gather' in un(x) for x in n.body):
+            for h in n.handlers:
+                txt = [un(x) for x in h.body]
+                sh = [k for k, x in enumerate(txt) if x.startswith('loader.shutdown(') and 'cancel_futures=True' in x and 'wait=False' in x]
+                wt = [k for k, x in enumerate(txt) if x.startswith('await asyncio.gather(') and 'return_exceptions=True' in x]
+                rs = [k for k, x in enumerate(txt) if x == 'raise']
+                if h.type is None or un(h.type) in ('BaseException', 'Exception'):
+                    joins_fail = joins_fail or bool(sh and wt and rs and sh[0] < wt[0] < rs[0])
+    emit(f'def restoreJoinsLoadersOnFailure : Bool := {"true" if joins_fail else "false"}')
     emit(f'def loaderJoinsWritersFirst : Bool := {"true" if joins else "false"}')
     emit(f'def removeUnderGlock : Bool := {"true" if rm_locked else "false"}')
     emit(f'def popUnderGlock : Bool := {"true" if pop_locked else "false"}')
